@@ -192,8 +192,14 @@ def run_vectors(rep, tier, tags, extra_calls=()):
     design_run(rep, small_cfg, 'exhaustive small scope: all argument vectors, invariants C04_*, C05_*, C07_*, C14_Excluded on the model')
     vecs = design_run(rep, 'Decide_boundary_quick.cfg' if tier == 'quick' else 'Decide_boundary_all.cfg',
                       'capacity boundaries of every (class, version, level): invariants + export of test vectors')
-    rep.notes['vectors_exported_by_tlc'] = len(vecs)
     sel = select(vecs, tier)
+    if tier == 'quick':
+        # every (class, version, level) capacity boundary of ALL versions, both sides, executed without sampling
+        slim = design_run(rep, 'Decide_boundary_slim.cfg', 'slim boundary scope: every (class, version, level) of all 44 versions, at and just above capacity')
+        rep.notes['slim_boundary_vectors_all_versions'] = len(slim)
+        vecs = vecs + slim
+        sel = sel + slim
+    rep.notes['vectors_exported_by_tlc'] = len(vecs)
     rep.notes['vectors_executed'] = len(sel)
     calls = [vector_call(r, v) for v in sel] + list(extra_calls)
     rep.evaluations += len(calls)
